@@ -117,3 +117,16 @@ Definition ifeq_head : enc := chars s_ifeq ++ [Ch 58].       (* "#ifeq:" *)
 Definition ifeq_result (x : enc) (more : list enc) : enc :=
   add_newline (strip_i (if mw_equal (codes (strip_i x)) (codes (strip_i (nth 0 more [])))
                         then nth 1 more [] else nth 2 more [])).
+
+(* {{#switch: x | k1 = v1 | ... }} with plain keyed cases: the value of the first case whose key equals x, else the value
+   of the last "#default = v" case, else empty; keys and values trimmed *)
+Definition switch_head : enc := chars s_switch ++ [Ch 58].   (* "#switch:" *)
+Definition mkcase (kv : enc * enc) : enc := fst kv ++ Ch 61 :: snd kv.
+Definition case_ok (kv : enc * enc) : bool :=
+  plain (fst kv) && forallb (fun i => negb (is_code 61 i) && negb (is_code 60 i)) (fst kv) && plain (snd kv).
+Fixpoint switch_result (val : enc) (cases : list (enc * enc)) (defval : option enc) : enc :=
+  match cases with
+  | [] => match defval with Some d => strip_i d | None => [] end
+  | (k, v) :: r => if mw_equal (codes (strip_i k)) (codes val) then strip_i v
+                   else switch_result val r (if str_eqb (lower (codes (strip_i k))) s_default then Some v else defval)
+  end.
